@@ -531,6 +531,12 @@ class Dependency(object):
 
         :param str result_hash: explicitly set result_hash
         """
+        # state saved by another checker must not be re-used (see get_status)
+        checker_name = self.checker.__class__.__name__
+        previous = self._get(task.name, 'checker:')
+        if previous and previous != checker_name:
+            self.remove(task.name)
+
         # save task values
         self._set(task.name, "_values_:", task.values)
 
